@@ -546,6 +546,14 @@ func DenseDataSet(rng *rand.Rand, graphs, size int, numeric bool) bq.Data {
 			}
 		}
 	}
+	// now and then: anchors inside one second whose printed fractions are prefixes of one
+	// another, a text that differs from another by letter case only
+	if rng.Intn(3) == 0 {
+		preds = append(preds, MustTemp("q", T3.Truncate(time.Second)), MustTemp("q", T3.Add(50*time.Millisecond)))
+	}
+	if rng.Intn(3) == 0 {
+		objs = append(objs, triple.NewLiteralObject(MustLit(literal.Text, "ABC")), triple.NewLiteralObject(MustLit(literal.Text, "Abc")))
+	}
 	// anchors outside the range of int64 nanoseconds since 1970, now and then
 	if rng.Intn(2) == 0 {
 		preds = append(preds, MustTemp("p", TFarFuture), MustTemp("q", TFarPast))
@@ -744,4 +752,30 @@ func AddBoundAlias(rng *rand.Rand, cs []bq.Clause) ([]bq.Clause, bool) {
 		c.PAt = "?pat" + sfx
 	}
 	return append(append([]bq.Clause{}, cs...), c), true
+}
+
+// WithEdgeWhitespaceNode copies some triples of /u<a> to a node whose id differs
+// by a trailing blank only (/u<a >), in every graph. Ordering such ids is a
+// known finding of C12 (KNOWN_FINDINGS.txt), so only checks that do not judge
+// the order of ID strings use this.
+func WithEdgeWhitespaceNode(rng *rand.Rand, d bq.Data) bq.Data {
+	res := bq.Data{}
+	twin := MustNode("/u", "a ")
+	for g, ts := range d {
+		out := append([]*triple.Triple{}, ts...)
+		seen := map[string]bool{}
+		for _, t := range ts {
+			seen[cv.Triple(t)] = true
+		}
+		for _, t := range ts {
+			if cv.Node(t.Subject()) == cv.Node(VNodes[0]) && rng.Intn(2) == 0 {
+				if c := MustTriple(twin, t.Predicate(), t.Object()); !seen[cv.Triple(c)] {
+					seen[cv.Triple(c)] = true
+					out = append(out, c)
+				}
+			}
+		}
+		res[g] = out
+	}
+	return res
 }
